@@ -294,7 +294,8 @@ def glue_cases(draw):
 _glue_stuck = []  # once a case has looped for its whole wall-clock allowance the following ones get a short one
 
 
-def glue_prop(case):
+def glue_prop(case, pid=None):
+    PID = pid or globals()['PID']
     from harness import glue_e2e as G, vloop
     vs = []
     import signal
